@@ -56,16 +56,40 @@ class Escaper:
             and all(n in ('enumerate', 'iter', 'as_bytes', 'bytes', 'into_iter', 'copied', 'cloned', 'as_ref') for n in names)
         self.indexed = 'enumerate' in names
 
-    def run_byte(self, c, started, inline):
-        """the loop body for the literal byte c: [(path outcome, bytes it emits, prefix-copy events)]"""
-        I = absx.Interp(self.f, self.B, inline=inline, combinators=True)
+    def run_byte(self, c, started, inline, pos=None):
+        """the loop body for the literal byte c: [(path outcome, bytes it emits, prefix-copy events)].  With pos = (i, n) the byte is the
+        i-th of an input of n bytes: the index is that literal and every length taken of the input is n, so position tests are
+        decided exactly however they are spelled (`i == 0`, `match i { 0 => .. }`, `i + 1 == len`, a hoisted `let len = ..`)."""
+        summaries = None
+        if pos is not None:
+            def length_of_input(I, cal, args, node, st, n=pos[1]):
+                if cal.rsplit('::', 1)[-1] in ('len', 'input_len') and len(args) == 1 and (args[0] == ('param', 'input') or absx.leaves(args[0], lambda x: x == ('param', 'input'))) \
+                        and not absx.leaves(args[0], lambda x: x[0] in ('index', 'call') and x is not args[0] and x[0] == 'index'):
+                    return [absx.Out('val', ('lit', n), st)]
+                return None
+            summaries = [length_of_input]
+        I = absx.Interp(self.f, self.B, inline=inline, combinators=True, summaries=summaries)
         env = {}
         for b, name, proj, pn in hirq.pat_bindings(self.loop['pat']):
-            env[b] = ('param', 'i') if (self.indexed and proj[:1] == (('tup', 0),)) else ('lit', c)
+            env[b] = (('lit', pos[0]) if pos is not None else ('param', 'i')) if (self.indexed and proj[:1] == (('tup', 0),)) else ('lit', c)
         for b, t in self.accs:
             env[b] = (('ctor', 'Some', (('vec', ()),)) if started else ('ctor', 'None', ())) if t == T_LAZY else ('vec', ())
         for b in self.inb:
             env[b] = ('param', 'input')
+        if pos is not None and self.B.root['k'] == 'Block':
+            # immutable locals declared before the loop (a hoisted `let len = val.len();`): evaluated once, in order
+            for stt in self.B.root['stmts']:
+                if any(x is self.loop for x, _ in walk(stt)):
+                    break
+                if stt['k'] == 'Let' and stt.get('init') is not None:
+                    bs = list(hirq.pat_bindings(stt['pat']))
+                    if len(bs) == 1 and not bs[0][2] and bs[0][0] not in env:
+                        try:
+                            vs = [o for o in I.ev(stt['init'], absx.St(env)) if o.kind == 'val']
+                        except Exception:
+                            vs = []
+                        if len(vs) == 1 and vs[0].val[0] == 'lit':
+                            env[bs[0][0]] = vs[0].val
         res = []
         for o in I.ev(self.loop['body'], absx.St(env)):
             emitted, prefix = [], []
@@ -107,20 +131,23 @@ def is_prefix_upto_i(t):
     """input[..i] (as str or bytes)"""
     idx = absx.leaves(t, lambda x: x[0] == 'index')
     return len(idx) == 1 and bool(absx.leaves(idx[0][1], lambda x: x == ('param', 'input')) or idx[0][1] == ('param', 'input')) and idx[0][2][0] == 'struct' \
-        and idx[0][2][1].endswith('RangeTo') and dict(idx[0][2][2]).get('end') == ('param', 'i')
+        and idx[0][2][1].endswith('RangeTo') and (dict(idx[0][2][2]).get('end') == ('param', 'i') or (dict(idx[0][2][2]).get('end') or ('unk',))[0] == 'lit')
 
-def transducer(ctx, E, name, inline, contexts):
+def transducer(ctx, E, name, inline, contexts, positions=(None,)):
     """Evaluate the loop body for every byte (x output started?) and classify: returns {byte: set of (decision, context)} and the
     list of deviations from "emit the byte itself, or backslash + two hex digits; copy the prefix exactly once, at the first escape"."""
     table, wrong = {}, []
     n_eval = 0
     for c in range(256):
+      for pos in positions:
         for started in ((False, True) if E.lazy else (True,)):
-            for o, emitted, prefix in E.run_byte(c, started, inline):
+            if pos is not None and pos[0] == 0 and started and E.lazy:
+                continue        # nothing can have been escaped before the first byte
+            for o, emitted, prefix in E.run_byte(c, started, inline, pos):
                 n_eval += 1
                 if o.kind not in ('val', 'cont'):
                     wrong.append((c, started, 'leaves the loop: ' + o.kind)); continue
-                cx = contexts(o)
+                cx = contexts(o) if pos is None else pos
                 if emitted == escape_bytes(c):
                     table.setdefault(c, set()).add(('escape', cx))
                     if E.lazy and not started:
@@ -217,26 +244,34 @@ def run(ctx):
         ctx.fail('anchor-missing', 'dn_escape loop', '', 'expected one loop over the input bytes (%s)' % e); return
     ctx.analysed['bodies'].add(D.path)
     ctx.add('E3.iterates-input-bytes-in-order', 'dn_escape', loc(D.loop), D.iter_ok, 'the loop does not visit the bytes of the input in order')
-    def dn_ctx(o):
-        first = next((t for a, t in o.st.pc if a == ('bin', 'Eq', ('param', 'i'), ('lit', 0))), None)
-        last = next((t for a, t in o.st.pc if a[0] == 'bin' and a[1] == 'Eq' and a[2] == ('bin', 'Add', ('param', 'i'), ('lit', 1)) and a[3][0] == 'call' and a[3][1].endswith('::len')), None)
-        return (first, last)
-    table, wrong, n_eval = transducer(ctx, D, 'dn_escape', inline_local('ldap3::util::'), dn_ctx)
+    # the loop body is evaluated for every byte in the four positions that matter: the only byte of a one-byte value, the first, a
+    # middle and the last byte of a longer one - with the index and the input's length as literals, so that every position test is
+    # decided exactly, however it is spelled
+    ONLY, FIRST, MIDDLE, LAST = (0, 1), (0, 3), (1, 3), (2, 3)
+    table, wrong, n_eval = transducer(ctx, D, 'dn_escape', inline_local('ldap3::util::'), None, positions=(ONLY, FIRST, MIDDLE, LAST))
     always, leading, trailing = set(), set(), set()
     for c, ds in table.items():
-        esc = [cx for d, cx in ds if d == 'escape']
-        plain = [cx for d, cx in ds if d == 'plain']
-        if esc and not plain:
+        verdict = {}
+        for d, pos in ds:
+            verdict.setdefault(pos, set()).add(d)
+        mixed = [pos for pos, v in verdict.items() if len(v) != 1]
+        if mixed or set(verdict) != {ONLY, FIRST, MIDDLE, LAST}:
+            wrong.append((c, 'not decided in positions %s' % (mixed or sorted({ONLY, FIRST, MIDDLE, LAST} - set(verdict)))))
+            continue
+        esc = {pos for pos, v in verdict.items() if v == {'escape'}}
+        if MIDDLE in esc:
             always.add(c)
-        for first, last in esc:
-            if c in always:
-                continue
-            if first is True:
-                leading.add(c)
-            elif last is True:
-                trailing.add(c)
-            else:
-                wrong.append((c, 'escaped with first=%s last=%s' % (first, last)))
+            if esc != {ONLY, FIRST, MIDDLE, LAST}:
+                wrong.append((c, 'escaped in the middle of a value but not in positions %s' % sorted({ONLY, FIRST, MIDDLE, LAST} - esc)))
+            continue
+        if FIRST in esc:
+            leading.add(c)
+        if LAST in esc:
+            trailing.add(c)
+        # a one-byte value is both the first and the last byte
+        if (ONLY in esc) != (FIRST in esc or LAST in esc):
+            wrong.append((c, 'as a one-byte value it is %s, but as the first byte of a longer value it is %s and as the last %s' % (
+                'escaped' if ONLY in esc else 'not escaped', 'escaped' if FIRST in esc else 'not escaped', 'escaped' if LAST in esc else 'not escaped')))
     ctx.add('E3.per-byte-transducer', 'dn_escape', loc(D.B.root), not wrong, 'unexpected loop-body behaviour: %s' % wrong[:6])
     ctx.add('E2.always-escaped', 'dn_escape', loc(D.B.root), RFC4514_SPECIAL <= always and always <= (ASCII_PUNCT | {0}),
             'always-escaped set %s must contain RFC 4514\'s %s and stay within ASCII punctuation' % (sorted(always), sorted(RFC4514_SPECIAL)))
